@@ -180,24 +180,23 @@ class DQN(RLAlgorithm):
         self.register_mutation_hook(self.init_hook)
 
     def init_hook(self) -> None:
-        """Resets module parameters for the detached and target networks."""
+        """Re-synchronises the target network with the evaluation network and refreshes
+        the detached views of both used by the soft update."""
         param_vals: TensorDict = from_module(self.actor).detach()
-
-        # NOTE: This removes the target params from the computation graph which
-        # reduces memory overhead and speeds up training, however these won't
-        # appear in the modules parameters
-        target_params: TensorDict = param_vals.clone().lock_()
 
         # This hook is prompted after performing architecture mutations on policy / evaluation
         # networks, which will fail since the target network is a shared network that won't be
         # reintiialized until the end. We can bypass the error safely for this reason.
         try:
-            target_params.to_module(self.actor_target)
-        except KeyError:
+            self.actor_target.load_state_dict(self.actor.state_dict())
+        except RuntimeError:
             pass
-        finally:
-            self.param_vals = param_vals
-            self.target_params = target_params
+
+        # NOTE: The target network keeps ordinary (frozen) parameters so that it shows up
+        # in state dicts, checkpoints and clones; the locked TensorDict shares their storage
+        self.actor_target.requires_grad_(False)
+        self.param_vals = param_vals
+        self.target_params = from_module(self.actor_target).detach().lock_()
 
     def get_action(
         self,
